@@ -424,7 +424,9 @@ def run(ctx):
                   % (R_.key()[:120] if R_ is not None else result,), where)
         # ---- table rows: [i, j, k, |A.(i,j,k)|], or the vectors A.(i,j,k) themselves sorted by their lengths
         rows = ev.table.source
-        vector_table = ev.table.width == 3
+        # a table of width 3 holds either the vectors A.(i,j,k) themselves or the integer triples, sorted by a separate key array
+        vector_table = ev.table.width == 3 and not all(const_int(x_) is not None for r_ in rows for x_ in r_[:3])
+        index3 = ev.table.width == 3 and not vector_table
         triples, badrow = set(), None
         if vector_table:
             A_ = [[Rat.atom("A[%d,%d]" % (r_, c_)) for c_ in range(3)] for r_ in range(3)]
@@ -443,12 +445,13 @@ def run(ctx):
                     and ((tag in ev.norm_of and veq(ev.norm_of[tag], r)) or (ints == [0, 0, 0] and key.is_zero()))
             else:
                 ints = [const_int(x) for x in r[:3]]
-                tag = single_atom(r[3]) if len(r) == 4 else None
-                okr = len(r) == 4 and all(i is not None for i in ints)
+                length = r[3] if len(r) == 4 else ev.table.keys[ri] if index3 else None
+                tag = single_atom(length) if length is not None else None
+                okr = length is not None and all(i is not None for i in ints)
                 if okr:
                     want = lin(ev.A, [Rat.const(i) for i in ints])
                     if ints == [0, 0, 0]:
-                        okr = r[3].is_zero() or (tag in ev.norm_of and veq(ev.norm_of[tag], want))
+                        okr = length.is_zero() or (tag in ev.norm_of and veq(ev.norm_of[tag], want))
                     else:
                         okr = tag in ev.norm_of and veq(ev.norm_of[tag], want)
             if not okr and badrow is None:
@@ -464,7 +467,7 @@ def run(ctx):
                   "the enumeration does not visit every index triple with |u|,|v|,|w| <= 2 for the default search range: "
                   "dropped %d of 125, e.g. %s" % (len(dropped), dropped[:3]), where,
                   sample={"triples_checked": 125, "dropped": len(dropped), "table_rows": len(rows)})
-        ctx.check(ev.table.col == 3 if not vector_table else True, "C18:vectors:%s.sorted" % short,
+        ctx.check(ev.table.col == 3 if not (vector_table or index3) else True, "C18:vectors:%s.sorted" % short,
                   "the candidate list is not sorted by its length column", where)
         # ---- picks
 
